@@ -110,6 +110,26 @@ fn main() {
                 out.flush().unwrap();
             }
         }
+        Some("probe") => {
+            // Single calls that may never return; `check` runs them under a time limit.
+            match args.get(2).map(|s| s.as_str()) {
+                Some("binomial-inverse") => {
+                    // known finding D24: the dependency's `Binomial::inverse` (the hint of the
+                    // quantile search) does not terminate for some valid parameters
+                    use constriction::stream::model::{DecoderModel, DefaultLeakyQuantizer};
+                    let n: usize = args.get(3).and_then(|s| s.parse().ok()).unwrap_or(920);
+                    let p: f64 = args.get(4).and_then(|s| s.parse().ok()).unwrap_or(0.4399495634132061);
+                    let q = DefaultLeakyQuantizer::<f64, i32>::new(0..=n as i32);
+                    let m = q.quantize(probability::distribution::Binomial::new(n, p));
+                    let r = DecoderModel::<24>::quantile_function(&m, (1u32 << 24) - 1);
+                    writeln!(out, "returned {} {} {}", r.0, r.1, r.2.get()).unwrap();
+                }
+                _ => {
+                    eprintln!("unknown probe");
+                    std::process::exit(2);
+                }
+            }
+        }
         Some("pyfront") => {
             // cvharness pyfront <cases.jsonl>: Rust-API answers for cases produced via the Python front end
             let mut rep = Report::default();
